@@ -47,10 +47,13 @@ THEOREMS = [
 RULE = (
     "every concrete survey class pair found by reflection (EM: grouped by default_receiver_type, side by `type`; DC: "
     "BaseElectrode subclasses) in every geometry variant (tipper: base stations with n or 1 vertices; large-loop / DC: "
-    "with and without the Transmitter ID / A-B Cell ID link data) x both linking directions x random sequences: optional "
-    "pre-link edit, link, then up to 5 of {edit (unit, input_type, channels, loop_radius, relative_to_bearing, pitch, "
+    "with and without the Transmitter ID / A-B Cell ID link data) x both linking directions (a third of the EM and tipper pairs "
+    "linked in the constructor call of the second side, Cls.create(..., partner=other)) x random sequences: optional "
+    "pre-link edit, link, then up to 5 of {edit (components added to the receivers, unit, input_type, channels, loop_radius, relative_to_bearing, pitch, "
     "timing_mark, free key set/delete - whichever the class has; direct-current pairs have no shared parameter and get no edits), re-open, copy (plain / mask= / "
-    "copy_from_extent, same / other workspace) of any existing pair incl. copies}; each pair is first probed with the "
+    "copy_from_extent, same / other workspace) of any existing pair incl. copies}, an epilogue re-pairing side A with a new partner "
+    "from either side, and after every operation the components each receivers entity was given must still be listed and "
+    "readable; each pair is first probed with the "
     "witness of asFound_edit_not_stored to select the write-through variant of the model; distinct by hash of "
     "(pair, direction, ops); non-trivial when the sequence has an edit after the link and a re-open or copy"
 )
@@ -296,7 +299,7 @@ def rec_of(desc, ent, uids, ws):
     d = md_dict(desc, ent)
     if d is None:
         return {"idA": None, "idB": None, "p": {}}
-    skip = (desc["keyA"], desc["keyB"], "Property groups")
+    skip = (desc["keyA"], desc["keyB"], "Property groups")     # the components of an entity: judged by `check_components`
     return {"idA": uids.num(ws, d.get(desc["keyA"])), "idB": uids.num(ws, d.get(desc["keyB"])),
             "p": {k: repr(v) for k, v in d.items()
                   if k not in skip and not isinstance(v, (uuid.UUID, type(None)))}}
@@ -310,7 +313,34 @@ def partner_of(desc, ent, side):
 # edits
 # ----------------------------------------------------------------------------------
 
-EM_PARAMS = ["unit", "input_type", "channels", "loop_radius", "relative_to_bearing", "pitch", "timing_mark", "custom", "custom"]
+EM_PARAMS = ["unit", "input_type", "channels", "loop_radius", "relative_to_bearing", "pitch", "timing_mark", "custom", "custom",
+             "components", "components"]
+
+
+COMPONENTS: dict = {}       # id(workspace) -> entity uid -> names of the components added through the harness
+
+
+def check_components(run, where):
+    """An entity keeps the components it was given, whatever is edited through its partner and across re-opens."""
+    for p in run.pairs:
+        for side in "AB":
+            ent = p["ents"][side]
+            # (a copy in another workspace keeps the identifier of its source: the registry is kept per file)
+            names = [n for n in COMPONENTS.get(str(ent.workspace.h5file), {}).get(ent.uid, []) if n != "<copy>"]
+            is_copy = "<copy>" in COMPONENTS.get(str(ent.workspace.h5file), {}).get(ent.uid, [])
+            if not names:
+                continue
+            try:
+                have = set((ent.components or {}).keys())
+                listed = set(ent.metadata["EM Dataset"].get("Property groups") or [])
+            except Exception as e:  # noqa: BLE001
+                run.fail(f"reading the components of side {side} raised {type(e).__name__}: {str(e)[:80]} ({where})", "components-raise")
+                continue
+            lost = sorted(set(names) - have) or sorted(set(names) - listed)
+            if lost:
+                run.fail(f"side {side} lost its components {lost} ({where}): components {sorted(have)}, listed {sorted(listed)}",
+                         "components-lost" + (":linked-from-the-partner" if where == "after link" or is_copy else ""))
+                COMPONENTS.get(str(ent.workspace.h5file), {}).pop(ent.uid, None)      # reported once
 
 
 def available_params(desc):
@@ -320,7 +350,8 @@ def available_params(desc):
         # Free keys put into that dictionary are not covered by the property (see DESIGN.md, observed/unclaimed).
         return []
     ca, cb = getattr(objects, desc["A"]), getattr(objects, desc["B"])
-    return [p for p in EM_PARAMS if p == "custom" or (hasattr(ca, p) and hasattr(cb, p))]
+    return [p for p in EM_PARAMS if p == "custom" or (hasattr(ca, p) and hasattr(cb, p))
+            or (p == "components" and hasattr(ca, "add_components_data"))]
 
 
 def apply_edit(desc, ent, param, k):
@@ -338,7 +369,9 @@ def apply_edit(desc, ent, param, k):
         ent.input_type = val
         return [("Input type", repr(val))], ("input_type", val)
     if param == "channels":
-        val = [float(k % 5 + i) + 0.5 for i in range(1 + k % 3)]
+        # once components exist (one data set per channel) the number of channels stays what it is
+        n_ch = len(ent.channels) if (ent.channels and any(COMPONENTS.values())) else 1 + k % 3
+        val = [float(k % 5 + i) + 0.5 for i in range(n_ch)]
         ent.channels = val
         return [("Channels", repr(val))], ("channels", val)
     if param == "loop_radius":
@@ -357,6 +390,29 @@ def apply_edit(desc, ent, param, k):
         val = float(k) + 0.5
         ent.timing_mark = val
         return [("Waveform", repr({"Timing mark": val}))], ("timing_mark", val)
+    if param == "components":
+        # a component (a property group of one data set per channel) is added to the entity: its name joins the shared
+        # 'Property groups' list
+        have = list(ent.metadata["EM Dataset"].get("Property groups") or [])
+        name = f"comp{k}"
+        if name in have or name in [g.name for g in (ent.property_groups or [])] or not ent.n_vertices \
+                or "Receivers" not in type(ent).__name__:
+            # components are data of the receivers (groups on both sides of a pair share one name list: not exercised)
+            val = f"text-{k}"
+            ent.edit_em_metadata({"Comment": val})
+            return [("Comment", repr(val))], None
+        out = []
+        if not ent.channels:
+            ent.channels = [float(k % 5) + 0.5]
+            out.append(("Channels", repr(ent.channels)))
+        data = {f"{name}_{i}": {"values": np.full(ent.n_vertices, float(i))} for i in range(len(ent.channels))}
+        ent.add_components_data({name: data})
+        COMPONENTS.setdefault(str(ent.workspace.h5file), {}).setdefault(ent.uid, []).append(name)
+        if not out:
+            val = f"text-{k}"
+            ent.edit_em_metadata({"Comment": val})
+            out.append(("Comment", repr(val)))
+        return out, None
     val = None if k % 4 == 3 else f"text-{k}"
     ent.edit_em_metadata({"Comment": val})
     return [("Comment", None if val is None else repr(val))], None
@@ -389,7 +445,7 @@ def gen_case(rng, desc, direction, max_ops=6):
             if desc["linkdata"]:
                 npairs += 1
     return {"pair": desc["name"], "variant": desc["variant"], "dir": direction, "ops": ops, "lazy": rng.random() < 0.5,
-            "repair": rng.choice(["no", "cached", "uncached"]), "kwlink": kwlink}
+            "repair": rng.choice(["no", "cached", "uncached"]), "repair_from": rng.choice(["A", "partner"]), "kwlink": kwlink}
 
 
 def witness(desc):
@@ -421,6 +477,8 @@ class Run:
 
     # -- helpers
     def sig(self, what):
+        if what.startswith("components-lost:linked-from-the-partner"):
+            return "C20:em-pairs:" + what          # one recorded finding for every pair of classes
         return f"C20:{self.desc['name']}:{what}"
 
     def fail(self, what, sig):
@@ -649,6 +707,13 @@ class Run:
             ents = {s: new, o: partner}
             self.alloc(target, ents["A"].uid, ents["B"].uid)
             self.pairs.append({"ws": target, "A": ents["A"].uid, "B": ents["B"].uid, "ents": ents})
+            # the copies carry the components of their sources (a copied pair is linked from the side that was copied: a loss
+            # there is the recorded linking finding)
+            for side_ in "AB":
+                src_ = p["ents"][side_]
+                names_ = [n for n in COMPONENTS.get(str(src_.workspace.h5file), {}).get(src_.uid, []) if n != "<copy>"]
+                if names_ and op["how"] == "plain":
+                    COMPONENTS.setdefault(str(ents[side_].workspace.h5file), {})[ents[side_].uid] = names_ + ["<copy>"]
         else:
             self.alloc(target, new.uid if s == "A" else None, new.uid if s == "B" else None)
             self.lones.append({"ws": target, "s": s, "uid": new.uid, "ent": new})
@@ -714,6 +779,7 @@ class Run:
                           "copy-dipoles")
 
     def execute(self):
+        COMPONENTS.clear()
         self.start()
         prev = None
         for op in self.case["ops"]:
@@ -731,6 +797,7 @@ class Run:
             self.ctx.count("op:" + op["t"] + (":" + op["how"] + ":" + op["ws"] if op["t"] == "copy" else ""))
             if not ok:
                 break
+            check_components(self, f"after {op['t']}")
             prev = self.snaps[-1] if self.snaps else None
         if self.case.get("lazy") and prev is not None and self.snaps:
             snap, stored = self.snapshot()
@@ -759,8 +826,11 @@ class Run:
             _ = partner_of(d, a, "A")                # the partner has been read once: it is cached on the entity
         w = self.ws("main")
         b2 = type(b_old).create(w, vertices=np.asarray(b_old.vertices).copy(), name="side_b2")
-        setattr(a, d["attrB"], b2)
-        self.ctx.count("op:repair:" + self.case["repair"])
+        if self.case.get("repair_from", "A") == "partner":
+            setattr(b2, d["attrA"], a)          # the new partner names side A: side A must follow
+        else:
+            setattr(a, d["attrB"], b2)
+        self.ctx.count("op:repair:" + self.case["repair"] + ":from-" + self.case.get("repair_from", "A"))
         ua, ub = a.uid, b2.uid
 
         def ids(ent):
@@ -769,6 +839,10 @@ class Run:
         for lab, ent in (("side A", a), ("the new partner", b2)):
             if ids(ent) != (ua, ub):
                 self.fail(f"after linking side A to a new partner, {lab} records {ids(ent)} instead of both identifiers", "repair-ids-live")
+        pa_live = partner_of(d, a, "A")
+        if getattr(pa_live, "uid", None) != ub:
+            self.fail(f"after linking side A to a new partner (from {self.case.get('repair_from', 'A')}), side A still resolves its partner to "
+                      f"{getattr(pa_live, 'uid', pa_live)} (the former partner)" , "repair-partner-stale")
         self.close_all()
         w = self.ws("main")
         a2, b2r = w.get_entity(ua)[0], w.get_entity(ub)[0]
